@@ -121,7 +121,8 @@ theorem last_is_upper_bound (evs : List Ev) :
     ∀ v ∈ (run St.init evs).log.map (·.2), v ≤ (run St.init evs).last :=
   (inv_run St.init evs inv_init).2.1
 
-/-- A timestamp set explicitly on a statement is sent unchanged, and the generator is not consulted. -/
+/-- A timestamp set explicitly on a statement is the one chosen. (That the generator is not even ASKED cannot be
+said with a pure `gen`; it is `explicit_leaves_generator_untouched` below, on the stateful `pickTimestampSt`.) -/
 theorem explicit_timestamp_wins (t : Int) (gen : Option (Unit → Int)) : pickTimestamp (some t) gen = some t := rfl
 
 theorem generated_when_absent (g : Unit → Int) : pickTimestamp none (some g) = some (g ()) := rfl
@@ -344,6 +345,332 @@ theorem seqRun_is_run (n : Nat) (s : St) (script : List (Option Nat)) (le : Opti
     rw [ih]
     · simp
     · simp [setPc]
+
+/-! ### the warning arm of `compute_next` (timestamp_generator.rs:109-130)
+
+What the arm can and cannot do to the returned timestamps. -/
+
+/-- **The returned timestamp does not depend on the warning state**: whenever `compute_next` returns at all, it
+returns `computeNext last clock` - whatever the warnings configuration (none, any threshold, any interval), the
+stored instant, the poison flag and the monotonic-clock reading are. -/
+theorem warning_state_does_not_change_value (cfg : Option WarnCfg) (last : Int) (clock : Option Int) (w : WarnSt)
+    (now : Nat) (v : Int) (wd : Warned) (w' : WarnSt)
+    (h : computeNextW cfg last clock w now = (some (v, wd), w')) : v = computeNext last clock := by
+  unfold computeNextW at h
+  unfold computeNext
+  cases clock with
+  | none =>
+    simp only [Prod.mk.injEq, Option.some.injEq] at h
+    exact h.1.1.symm
+  | some u =>
+    simp only at h ⊢
+    repeat' split at h
+    all_goals first
+      | (simp only [Prod.mk.injEq, Option.some.injEq, reduceCtorEq, false_and] at h; done)
+      | (simp only [Prod.mk.injEq, Option.some.injEq] at h
+         obtain ⟨⟨hv, _⟩, _⟩ := h
+         subst hv
+         split <;> omega)
+
+/-- The domain in which `compute_next` cannot panic: the mutex is not poisoned and `last_warning + interval` is
+representable (`Instant::checked_add` succeeds). -/
+def WarnDomain (cfg : Option WarnCfg) (w : WarnSt) : Prop :=
+  w.poisoned = false ∧ ∀ c, cfg = some c → (w.lastWarnNs + c.intervalNs) / 1000000000 < 2 ^ 63
+
+/-- **No panic in the domain**, and the stored instant afterwards is the old one or the reading just taken. -/
+theorem no_panic_in_domain (cfg : Option WarnCfg) (last : Int) (clock : Option Int) (w : WarnSt) (now : Nat)
+    (h : WarnDomain cfg w) :
+    ∃ v wd w', computeNextW cfg last clock w now = (some (v, wd), w') ∧ w'.poisoned = false ∧
+      (w'.lastWarnNs = w.lastWarnNs ∨ w'.lastWarnNs = now) := by
+  obtain ⟨hp, hd⟩ := h
+  unfold computeNextW
+  cases clock with
+  | none => exact ⟨_, _, _, rfl, hp, Or.inl rfl⟩
+  | some u =>
+    simp only
+    split
+    · exact ⟨_, _, _, rfl, hp, Or.inl rfl⟩
+    · cases cfg with
+      | none => exact ⟨_, _, _, rfl, hp, Or.inl rfl⟩
+      | some c =>
+        simp only
+        split
+        · have hc := hd c rfl
+          simp only [hp, Bool.false_eq_true, if_false, instantCheckedAdd, hc, if_true]
+          by_cases hn : now ≥ w.lastWarnNs + c.intervalNs
+          · simp only [hn, if_true]
+            exact ⟨_, _, _, rfl, rfl, Or.inr rfl⟩
+          · simp only [hn, if_false]
+            exact ⟨_, _, _, rfl, hp, Or.inl rfl⟩
+        · exact ⟨_, _, _, rfl, hp, Or.inl rfl⟩
+
+/-- **Exactly when it panics** (the hazard outside the domain): the clock reading does not exceed `last`, warnings
+are configured, the skew exceeds the threshold, and the mutex is already poisoned or `last_warning + interval`
+overflows. Afterwards the mutex is poisoned, so every later call on this path panics too (`poisoned_stays`). -/
+theorem panics_iff (cfg : Option WarnCfg) (last : Int) (clock : Option Int) (w : WarnSt) (now : Nat) :
+    (computeNextW cfg last clock w now).1 = none ↔
+      ∃ u c, clock = some u ∧ u ≤ last ∧ cfg = some c ∧ last - u > c.thresholdUs ∧
+        (w.poisoned = true ∨ instantCheckedAdd w.lastWarnNs c.intervalNs = none) := by
+  unfold computeNextW
+  cases clock with
+  | none => simp
+  | some u =>
+    simp only
+    by_cases hu : u > last
+    · simp only [hu, if_true]
+      constructor
+      · intro h; simp at h
+      · rintro ⟨u', c, h1, h2, _⟩
+        cases h1; omega
+    · simp only [hu, if_false]
+      cases cfg with
+      | none => simp
+      | some c =>
+        simp only
+        by_cases ht : last - u > c.thresholdUs
+        · simp only [ht, if_true]
+          cases hpz : w.poisoned with
+          | true =>
+            simp only [if_true]
+            exact ⟨fun _ => ⟨u, c, rfl, by omega, rfl, ht, Or.inl trivial⟩, fun _ => trivial⟩
+          | false =>
+            simp only [Bool.false_eq_true, if_false]
+            cases hadd : instantCheckedAdd w.lastWarnNs c.intervalNs with
+            | none =>
+              simp only
+              exact ⟨fun _ => ⟨u, c, rfl, by omega, rfl, ht, Or.inr hadd⟩, fun _ => trivial⟩
+            | some due =>
+              simp only
+              constructor
+              · intro h; split at h <;> simp at h
+              · rintro ⟨u', c', h1, _, h3, _, h5⟩
+                cases h1; cases h3
+                rcases h5 with h5 | h5
+                · simp at h5
+                · rw [hadd] at h5; cases h5
+        · simp only [ht, if_false]
+          constructor
+          · intro h; simp at h
+          · rintro ⟨u', c', h1, _, h3, h4, _⟩
+            cases h1; cases h3; exact absurd h4 ht
+
+theorem panic_poisons (cfg : Option WarnCfg) (last : Int) (clock : Option Int) (w : WarnSt) (now : Nat)
+    (h : (computeNextW cfg last clock w now).1 = none) : (computeNextW cfg last clock w now).2.poisoned = true := by
+  unfold computeNextW at h ⊢
+  cases clock with
+  | none => simp at h
+  | some u =>
+    simp only at h ⊢
+    split
+    · rename_i hu; simp [hu] at h
+    · rename_i hu
+      simp only [hu, if_false] at h
+      cases cfg with
+      | none => simp at h
+      | some c =>
+        simp only at h ⊢
+        split
+        · rename_i ht
+          simp only [ht, if_true] at h
+          cases hpz : w.poisoned with
+          | true => simp [hpz]
+          | false =>
+            simp only [hpz, Bool.false_eq_true, if_false] at h ⊢
+            cases hadd : instantCheckedAdd w.lastWarnNs c.intervalNs with
+            | none => rfl
+            | some due =>
+              rw [hadd] at h
+              simp only at h
+              split at h <;> simp at h
+        · rename_i ht; simp [ht] at h
+
+/-- A poisoned mutex stays poisoned (nothing in the code clears it). -/
+theorem poisoned_stays (cfg : Option WarnCfg) (last : Int) (clock : Option Int) (w : WarnSt) (now : Nat)
+    (h : w.poisoned = true) : (computeNextW cfg last clock w now).2.poisoned = true := by
+  unfold computeNextW
+  cases clock with
+  | none => exact h
+  | some u =>
+    simp only
+    split
+    · exact h
+    · cases cfg with
+      | none => exact h
+      | some c =>
+        simp only
+        split
+        · simp [h]
+        · exact h
+
+/-- With `warning_interval = 0` the arm warns on EVERY call whose skew exceeds the threshold (the monotonic clock
+never reads below the stored instant): what makes the `seqw`/`mtw`/`mtp` cases with interval 0 execute lines
+113-128 on every such call, and what the harness's count of `warn!` events is compared with. -/
+theorem interval_zero_always_warns (c : WarnCfg) (last u : Int) (w : WarnSt) (now : Nat)
+    (hi : c.intervalNs = 0) (hp : w.poisoned = false) (hrep : w.lastWarnNs / 1000000000 < 2 ^ 63)
+    (hnow : w.lastWarnNs ≤ now) (hu : u ≤ last) (ht : last - u > c.thresholdUs) :
+    computeNextW (some c) last (some u) w now = (some (last + 1, .skew), { w with lastWarnNs := now }) := by
+  unfold computeNextW
+  have hu' : ¬ u > last := by omega
+  simp only [hu', if_false, ht, if_true, hp, instantCheckedAdd, hi, Nat.add_zero, hrep]
+  simp [hnow]
+
+example : computeNextW (some ⟨1, 0⟩) 100 (some 98) ⟨5, false⟩ 7 = (some (101, .skew), ⟨7, false⟩) := by decide
+example : computeNextW (some ⟨1, 0⟩) 100 (some 99) ⟨5, false⟩ 7 = (some (101, .no), ⟨5, false⟩) := by decide
+-- `Duration::MAX` as the interval: the first skewed call panics and poisons, the next one panics on `lock().unwrap()`
+example : computeNextW (some ⟨0, 18446744073709551615999999999⟩) 100 (some 50) ⟨5, false⟩ 7 = (none, ⟨5, true⟩) := by
+  decide
+example : (computeNextW (some ⟨0, 0⟩) 100 (some 50) ⟨5, true⟩ 7).1 = none := by decide
+
+/-! The whole CAS loop with the warning state alongside. -/
+
+private theorem inv_stepW (cfg : Option WarnCfg) (s : StW) (e : EvW) (h : Inv s.core) : Inv (stepW cfg s e).core := by
+  cases e with
+  | load t => exact inv_step s.core (.load t) h
+  | cas t => exact inv_step s.core (.cas t) h
+  | compute t clock now =>
+    simp only [stepW]
+    cases hp : s.core.pcs t with
+    | idle => exact h
+    | computed l c => exact h
+    | loaded l =>
+      simp only
+      cases hc : computeNextW cfg l clock s.warn now with
+      | mk r w' =>
+        cases r with
+        | none => exact inv_setPc_noncomputed s.core t _ h (by intro l' c' hc'; cases hc')
+        | some vw =>
+          obtain ⟨v, wd⟩ := vw
+          have hv := warning_state_does_not_change_value cfg l clock s.warn now v wd w' hc
+          refine inv_setPc_noncomputed s.core t _ h ?_
+          intro l' c' hc'
+          cases hc'
+          rw [hv]
+          exact computeNext_gt _ _
+
+/-- **Every interleaving, every clock, every warnings configuration - panicking calls included**: the timestamps
+handed out are strictly increasing in the order of their installation (hence distinct, and increasing per thread):
+a call that panics inside the warning arm returns nothing and leaves `last` alone. -/
+theorem warn_log_strict (cfg : Option WarnCfg) (w : WarnSt) (evs : List EvW) :
+    ((runW cfg ⟨St.init, w, 0⟩ evs).core.log.map (·.2)).Pairwise (· < ·) := by
+  suffices h : ∀ (s : StW), Inv s.core → Inv (runW cfg s evs).core from (h ⟨St.init, w, 0⟩ inv_init).1
+  intro s hs
+  induction evs generalizing s with
+  | nil => exact hs
+  | cons e es ih => exact ih (stepW cfg s e) (inv_stepW cfg s e hs)
+
+private def nowOk (cfg : Option WarnCfg) : EvW → Prop
+  | .compute _ _ now => ∀ c, cfg = some c → (now + c.intervalNs) / 1000000000 < 2 ^ 63
+  | _ => True
+
+/-- **In the domain the warning arm is invisible**: if the mutex starts unpoisoned and `instant + interval` is
+representable for the initial instant and for every monotonic-clock reading of the run, then no call panics and
+the machine's core (the shared counter, every thread's program counter, the log of returned timestamps) is exactly
+that of the warning-free model on the same events - so every theorem about `run` is a theorem about the generator
+with warnings configured. -/
+theorem warn_transparent (cfg : Option WarnCfg) (s : StW) (evs : List EvW) (hd : WarnDomain cfg s.warn)
+    (hnow : ∀ e ∈ evs, nowOk cfg e) :
+    (runW cfg s evs).core = run s.core (evs.map EvW.erase) ∧ (runW cfg s evs).panics = s.panics ∧
+      WarnDomain cfg (runW cfg s evs).warn := by
+  induction evs generalizing s with
+  | nil => exact ⟨rfl, rfl, hd⟩
+  | cons e es ih =>
+    have he := hnow e List.mem_cons_self
+    have hes : ∀ e' ∈ es, nowOk cfg e' := fun e' h' => hnow e' (List.mem_cons_of_mem _ h')
+    have key : (stepW cfg s e).core = step s.core e.erase ∧ (stepW cfg s e).panics = s.panics ∧
+        WarnDomain cfg (stepW cfg s e).warn := by
+      cases e with
+      | load t => exact ⟨rfl, rfl, hd⟩
+      | cas t => exact ⟨rfl, rfl, hd⟩
+      | compute t clock now =>
+        simp only [stepW, EvW.erase, step]
+        cases hp : s.core.pcs t with
+        | idle => exact ⟨rfl, rfl, hd⟩
+        | computed l c => exact ⟨rfl, rfl, hd⟩
+        | loaded l =>
+          simp only
+          obtain ⟨v, wd, w', hc, hpz, hlw⟩ := no_panic_in_domain cfg l clock s.warn now hd
+          have hv := warning_state_does_not_change_value cfg l clock s.warn now v wd w' hc
+          rw [hc]
+          simp only
+          refine ⟨by rw [hv], trivial, hpz, ?_⟩
+          intro c hcfg
+          rcases hlw with h1 | h1
+          · rw [h1]; exact hd.2 c hcfg
+          · rw [h1]; exact he c hcfg
+    obtain ⟨k1, k2, k3⟩ := key
+    obtain ⟨i1, i2, i3⟩ := ih (stepW cfg s e) k3 hes
+    refine ⟨?_, ?_, i3⟩
+    · show (runW cfg (stepW cfg s e) es).core = run (step s.core e.erase) (es.map EvW.erase)
+      rw [i1, k1]
+    · show (runW cfg (stepW cfg s e) es).panics = s.panics
+      rw [i2, k2]
+
+/-- Sequential runs (what `seqw` cases compare): in the domain the values are those of the warning-free `seqRun`
+and no call panics, for ANY behaviour `nowOf` of the monotonic clock that stays representable. -/
+theorem seqRunW_values (cfg : Option WarnCfg) (nowOf : Nat → Nat) (n : Nat) (last : Int)
+    (script : List (Option Nat)) (le : Option Nat) (w : WarnSt) (hd : WarnDomain cfg w)
+    (hnow : ∀ c, cfg = some c → ∀ lw, (lw + c.intervalNs) / 1000000000 < 2 ^ 63 →
+      (nowOf lw + c.intervalNs) / 1000000000 < 2 ^ 63) :
+    (seqRunW cfg nowOf n last script le w).map (Option.map Prod.fst) = (seqRun n last script le).map some := by
+  induction n generalizing last script le w with
+  | zero => simp [seqRunW, seqRun]
+  | succ n ih =>
+    unfold seqRunW seqRun
+    simp only
+    obtain ⟨v, wd, w', hc, hpz, hlw⟩ :=
+      no_panic_in_domain cfg last ((readClock script le).1.map microsAsI64) w (nowOf w.lastWarnNs) hd
+    have hv := warning_state_does_not_change_value cfg last _ w _ v wd w' hc
+    rw [hc]
+    simp only [List.map_cons, Option.map_some]
+    have hd' : WarnDomain cfg w' := by
+      refine ⟨hpz, ?_⟩
+      intro c hcfg
+      rcases hlw with h1 | h1
+      · rw [h1]; exact hd.2 c hcfg
+      · rw [h1]; exact hnow c hcfg _ (hd.2 c hcfg)
+    rw [ih v _ _ w' hd', hv]
+
+example : seqRunW (some ⟨1, 0⟩) id 4 0 [some 10, some 10, some 7, none] none ⟨0, false⟩ =
+    [some (10, .no), some (11, .no), some (12, .skew), some (13, .epoch)] := by decide
+example : seqRunW (some ⟨0, 18446744073709551615999999999⟩) id 4 0 [some 10, some 5, some 20, some 5] none ⟨0, false⟩ =
+    [some (10, .no), none, some (20, .no), none] := by decide
+
+/-! ### the timestamp choice with a STATEFUL generator: "not consulted", said -/
+
+/-- A timestamp set explicitly on a statement is sent unchanged **and the generator is not consulted**: its state
+afterwards is its state before (end-to-end: the counting generator of `e2e tsconn` is not advanced by a statement
+with an explicit timestamp). -/
+theorem explicit_leaves_generator_untouched {σ : Type} (t : Int) (gen : Option (σ → Int × σ)) (s : σ) :
+    pickTimestampSt (some t) gen s = (some t, s) := rfl
+
+/-- Without an explicit timestamp the generator is asked exactly once: value and next state are those of ONE step. -/
+theorem generated_asks_once {σ : Type} (g : σ → Int × σ) (s : σ) :
+    pickTimestampSt none (some g) s = (some (g s).1, (g s).2) := rfl
+
+/-- The value chosen is the one `pickTimestamp` chooses. -/
+theorem pickTimestampSt_value {σ : Type} (stmtTs : Option Int) (gen : Option (σ → Int × σ)) (s : σ) :
+    (pickTimestampSt stmtTs gen s).1 = pickTimestamp stmtTs (gen.map fun g _ => (g s).1) := by
+  cases stmtTs <;> cases gen <;> rfl
+
+/-- One call, any number of re-sent frames: every frame carries the one value picked, the generator advanced by at
+most one step - none at all when the statement has its own timestamp. -/
+theorem frames_ask_at_most_once {σ : Type} (stmtTs : Option Int) (g : σ → Int × σ) (s : σ) (resends : Nat) :
+    (∀ f ∈ (framesSt stmtTs (some g) s resends).1, f = (pickTimestampSt stmtTs (some g) s).1) ∧
+    ((framesSt stmtTs (some g) s resends).2 = s ∨ (framesSt stmtTs (some g) s resends).2 = (g s).2) ∧
+    (∀ t, stmtTs = some t → (framesSt stmtTs (some g) s resends).2 = s) := by
+  refine ⟨?_, ?_, ?_⟩
+  · intro f hf
+    exact (List.mem_replicate.mp hf).2
+  · cases stmtTs with
+    | some t => exact Or.inl rfl
+    | none => exact Or.inr rfl
+  · intro t ht; rw [ht]; rfl
+
+-- a counting generator: the state is the number of calls
+example : framesSt (some 7) (some fun (n : Nat) => ((1000 + n : Int), n + 1)) 3 2 = ([some 7, some 7, some 7], 3) := by
+  decide
+example : framesSt none (some fun (n : Nat) => ((1000 + n : Int), n + 1)) 3 2 = ([some 1003, some 1003, some 1003], 4) := by
+  decide
 
 -- non-vacuity: two threads, a stalled clock (both read 5), thread 1's first CAS fails and it retries;
 -- then a clock jumping backwards.
